@@ -70,15 +70,17 @@ def build_create(case):
         il.addInput(off, sem, ref_of(tgt))
     mat = None if case.get('material') is None else 'mat%d' % case['material']
     kind = case['kind']
-    # int32 like the loaders; the stream may hold values up to 2**31 - 1
+    # argument forms: the index dtype (int32 like the loaders, int64 = numpy's default, uint32)
+    # and vcounts as an array or a plain list; values go up to 2**31 - 1
+    dt = {'int32': numpy.int32, 'int64': numpy.int64, 'uint32': numpy.uint32}[case.get('dtype', 'int32')]
     if kind == 'tri':
-        return lambda: geom.createTriangleSet(numpy.array(case['flat'], dtype=numpy.int32), il, mat)
+        return lambda: geom.createTriangleSet(numpy.array(case['flat'], dtype=dt), il, mat)
     if kind == 'line':
-        return lambda: geom.createLineSet(numpy.array(case['flat'], dtype=numpy.int32), il, mat)
+        return lambda: geom.createLineSet(numpy.array(case['flat'], dtype=dt), il, mat)
     if kind == 'polylist':
-        return lambda: geom.createPolylist(numpy.array(case['flat'], dtype=numpy.int32),
-                                           numpy.array(case['vcounts'], dtype=numpy.int32), il, mat)
-    return lambda: geom.createPolygons([numpy.array(p, dtype=numpy.int32) for p in case['polys']], il, mat)
+        vc = list(case['vcounts']) if case.get('vcform') == 'list' else numpy.array(case['vcounts'], dtype=numpy.int32)
+        return lambda: geom.createPolylist(numpy.array(case['flat'], dtype=dt), vc, il, mat)
+    return lambda: geom.createPolygons([numpy.array(p, dtype=dt) for p in case['polys']], il, mat)
 
 
 def xml_source(i, n, nc, raw=None):
